@@ -28,7 +28,13 @@ def make_isa(cfg):
         if ws:
             d['operands'] = {'count': len(ws), 'operand_sets': {'list': [f'imm{8 * w}' for w in ws]}}
         instrs[m] = d
-    isa = {'description': 'layout', 'general': general, 'operand_sets': opsets, 'instructions': instrs}
+    # a 12-bit instruction (4-bit opcode, 8-bit unaligned immediate: 2 bytes on its own) and a macro of two of them;
+    # generated only as statement kinds 'nib' / 'macro' (numeric operand 0..254), modelled by their byte expansion
+    opsets['nimm8'] = {'operand_values': {'v': {'type': 'numeric', 'argument': {'size': 8, 'byte_align': False}}}}
+    instrs['ldn'] = {'bytecode': {'value': 0xA, 'size': 4}, 'operands': {'count': 1, 'operand_sets': {'list': ['nimm8']}}}
+    macros = {'ldn2': [{'operands': {'count': 1, 'operand_sets': {'list': ['nimm8']}},
+                        'instructions': ['ldn @ARG(0)', 'ldn @ARG(0) + 1']}]}
+    isa = {'description': 'layout', 'general': general, 'operand_sets': opsets, 'instructions': instrs, 'macros': macros}
     pre = {}
     if cfg.get('preZones'):
         pre['memory_zones'] = [{'name': n, 'start': s, 'end': e} for n, s, e in cfg['preZones']]
@@ -73,6 +79,12 @@ def render_stmt(rng, st, files=None):
         return '.align' + (' ' + rexpr(rng, st['p']) if st.get('p') is not None else '')
     if k == 'instr':
         return st['mn'] + (' ' + ', '.join(rexpr(rng, a[0]) for a in st['args']) if st['args'] else '')
+    if k == 'cond':
+        return '#' + st['d'] + (' ' + str(st['c']['lhs'][1]) if 'c' in st else '')
+    if k == 'nib':
+        return 'ldn ' + str(st['v'])
+    if k == 'macro':
+        return 'ldn2 ' + str(st['v'])
     if k == 'mute':
         return '#mute'
     if k == 'unmute':
@@ -95,6 +107,10 @@ def model_stmt(st):
     st.pop('text', None)
     if st['k'] == 'instr':
         st['opcode'] = INSTRS[st['mn']][0]
+    if st['k'] in ('nib', 'macro'):
+        # byte expansion of the 12-bit instruction(s): A v_hi | v_lo 0 (fixed order, whatever the endianness)
+        vs = [st['v']] if st['k'] == 'nib' else [st['v'], st['v'] + 1]
+        st = {'k': 'data', 'w': 1, 'vals': [x for v in vs for x in (('num', 0xA0 | (v >> 4)), ('num', (v & 15) << 4))]}
     return st
 
 
@@ -183,7 +199,7 @@ def gen_cfg(rng, zones=True, predefined=True, bits=None):
 def gen_program(rng, cfg, n_stmts=None, weights=None, allow_bad=0.1, gprefix='gl', extra_defined=(), end_label=True):
     """returns list of stmts (single file)"""
     w = {'label': 3, 'const': 1.5, 'data': 4, 'fill': 1.5, 'zerountil': 1, 'org': 1.5, 'memzone': 0.8, 'align': 1,
-         'instr': 4, 'mute': 0.6, 'createZone': 0.5, 'comment': 0.5}
+         'instr': 4, 'mute': 0.6, 'createZone': 0.5, 'comment': 0.5, 'macro': 0}
     if weights:
         w.update(weights)
     kinds = list(w)
@@ -311,6 +327,12 @@ def gen_program(rng, cfg, n_stmts=None, weights=None, allow_bad=0.1, gprefix='gl
                     args.append([simple_expr(rng, v, names, tr.env), wd])
             stmts.append({'k': 'instr', 'mn': mn, 'args': args})
             tr.advance(1 + sum(INSTRS[mn][1]))
+        elif k == 'macro':
+            v = rng.choice([0, 254, 15, 16, rng.randint(0, 254)])
+            if rng.random() < 0.4:
+                stmts.append({'k': 'nib', 'v': v}); tr.advance(2)
+            else:
+                stmts.append({'k': 'macro', 'v': v}); tr.advance(4)
         elif k == 'mute':
             if muted and rng.random() < 0.7:
                 stmts.append({'k': 'unmute'}); muted -= 1
@@ -345,6 +367,52 @@ def gen_program(rng, cfg, n_stmts=None, weights=None, allow_bad=0.1, gprefix='gl
             st['vals'] = [fix(v) for v in st['vals']]
         elif st['k'] == 'instr':
             st['args'] = [[fix(a[0]), a[1]] for a in st['args']]
+    return stmts
+
+
+def COND_IF(v):
+    return {'k': 'cond', 'd': 'if', 'c': {'lhs': ('num', v), 'op': '!=', 'rhs': ('num', 0)}}
+
+
+def add_dead_blocks(rng, cfg, stmts, n=1):
+    """insert `#if 0 ... #endif` blocks whose content would move the cursor / switch the zone / reset the region / define
+    names if it were (wrongly) processed, and wrap a stretch of the program in `#if 1 ... #endif`; neither changes the
+    meaning of the program (C08), so every layout property must hold unchanged"""
+    stmts = list(stmts)
+    zones = [z[0] for z in cfg.get('preZones', []) if z[0] != 'GLOBAL']
+    for _ in range(n):
+        dead = []
+        for _i in range(rng.randint(1, 3)):
+            k = rng.choice(['memzone', 'org', 'align', 'data', 'label', 'fill', 'mute', 'createZone'])
+            if k == 'memzone':
+                dead.append({'k': 'memzone', 'z': rng.choice(zones)} if zones else {'k': 'org', 'e': ('num', 3)})
+            elif k == 'org':
+                st = {'k': 'org', 'e': ('num', rng.randint(0, 9))}
+                if zones and rng.random() < 0.5:
+                    st['zone'] = rng.choice(zones)
+                dead.append(st)
+            elif k == 'align':
+                dead.append({'k': 'align', 'p': ('num', 16)})
+            elif k == 'data':
+                dead.append({'k': 'data', 'w': rng.choice([1, 2]), 'vals': [('num', 0xDE)]})
+            elif k == 'label':
+                dead.append({'k': 'label', 'name': f'dead_{rng.randint(0, 3)}'})
+            elif k == 'fill':
+                dead.append({'k': 'fill', 'cnt': ('num', 3), 'val': ('num', 0xDD)})
+            elif k == 'mute':
+                dead.append({'k': 'mute'})
+            else:
+                dead.append({'k': 'createZone', 'name': 'DEADZ', 's': 0, 'e': 3})
+        i = rng.randint(0, len(stmts))
+        if rng.random() < 0.5:
+            stmts[i:i] = [COND_IF(0)] + dead + [{'k': 'cond', 'd': 'endif'}]
+        else:
+            j = rng.randint(i, len(stmts))
+            stmts[i:j] = [COND_IF(0)] + dead + [{'k': 'cond', 'd': 'else'}] + stmts[i:j] + [{'k': 'cond', 'd': 'endif'}]
+    if rng.random() < 0.4 and stmts:
+        i = rng.randint(0, len(stmts) - 1)
+        j = rng.randint(i, len(stmts))
+        stmts[i:j] = [COND_IF(1)] + stmts[i:j] + [{'k': 'cond', 'd': 'endif'}]
     return stmts
 
 
